@@ -55,4 +55,9 @@ CHECKS = {
   "text": "Specs (mnemonic x operand shape from a ~900-entry family table x registers x memory operands over base/index/scale/displacement/segment x immediates at every width boundary) are printed by the harness's own Intel and AT&T printers, assembled with asm/asm_att, and ALL returned candidates are decoded by objdump: each must be one instruction of exactly len(candidate) bytes whose mnemonic, operands, sizes, displacement and immediate (as an integer under the operand width, out-of-range values must produce no candidate) are those of the spec.",
   "note": "Trusted: objdump/LLVM agreement, vlib/nf.py, the family table and printers in vlib/asmgen.py (cr/dr register names are not generated: the parser treats them as symbols). Relative-branch numbers follow miasmX's displacement convention. Lines the assembler rejects are outside the domain. 43 existing defects are listed (silent immediate truncation, bogus extra MMX/SSE candidates, dropped ds: override on ebp/esp bases, out dx,eax).",
  },
+ "C03": {
+  "technique": "round-trip (fixpoint) testing: (a) every candidate of Hypothesis-generated lines through dis/str/asm; (b) canonical byte strings of the enumerated byte space, canonicity decided by GNU as + objdump",
+  "text": "(a) For every accepted generated line (both syntaxes) and every candidate b: dis(b) accepts, consumes len(b) bytes, its Intel rendering re-assembles and b is among the new candidates. (b) Every decodable string of the structured byte space (plus boundary displacement/immediate grids) that GNU as reproduces from objdump's disassembly is rendered by miasmX and re-assembled; the original bytes must be among the candidates.",
+  "note": "Trusted: GNU as/objdump for canonicity. Relative branches are skipped in (b) (objdump prints absolute targets). Failures cluster on addressing features (segment override, absolute address, 16-bit addressing, cr/dr registers) and are keyed by feature or by (prefix, opcode, mnemonic); ~130 existing ones are listed.",
+ },
 }
